@@ -84,7 +84,8 @@ def main():
     rnd = random.Random(chk.seed)
     # ---- MC
     if quick:
-        chk.mc('Runtime', 'MC_Runtime_code2', workers=16, heap='8g', label='code model, 2 threads x 2 calls, faults')
+        chk.mc('Runtime', 'MC_Runtime_code2', workers=16, heap='8g', label='code model, 2 threads x 2 calls, faults',
+               must_cover=['GEnter', 'GCheck', 'GParse', 'GFail', 'GStore', 'GUse', 'VEnter', 'VMember', 'VCache', 'VImport', 'Return'])
     else:
         chk.mc('Runtime', 'MC_Runtime_code', workers=16, heap='12g', label='code model, 3 threads x 2 calls, faults', timeout=3000)
     for v, inv in (('StoreFirst', 'PureResults'), ('BaseKey', 'KeyInjective'), ('AliasProps', 'PureResults'),
